@@ -609,10 +609,13 @@ type Lite struct {
 
 // NewLite builds the container under schedule S1 = Schedule(1000) with activation epoch 1,
 // already confirmed.
-func NewLite() *Lite {
+func NewLite() *Lite { return NewLiteWith(1000) }
+
+// NewLiteWith builds the container under Schedule(base).
+func NewLiteWith(base uint64) *Lite {
 	n := &Notifier{}
 	f, err := builtInFunctions.NewBuiltInFunctionsFactory(builtInFunctions.ArgsCreateBuiltInFunctionContainer{
-		GasMap: Schedule(1000), MapDNSAddresses: map[string]struct{}{}, Marshalizer: liteMarshal{}, Accounts: liteAdapter{},
+		GasMap: Schedule(base), MapDNSAddresses: map[string]struct{}{}, Marshalizer: liteMarshal{}, Accounts: liteAdapter{},
 		ShardCoordinator: liteCoord{}, EpochNotifier: n, ESDTNFTImprovementV1ActivationEpoch: 1,
 	})
 	if err != nil {
@@ -641,7 +644,19 @@ func addr(c byte, shard byte) []byte {
 }
 
 // ExecKinds are the priced executions of H3.
-var ExecKinds = []string{"ESDTNFTTransfer", "ESDTNFTCreate", "SaveKeyValue", "MultiESDTNFTTransfer", "ESDTNFTAddURI"}
+var ExecKinds = []string{"ESDTNFTTransfer", "ESDTNFTCreate", "SaveKeyValue", "MultiESDTNFTTransfer", "ESDTNFTAddURI",
+	"ESDTNFTTransfer/same-shard", "MultiESDTNFTTransfer/same-shard", "ESDTTransfer", "ESDTLocalMint", "ESDTNFTUpdateAttributes"}
+
+// RefCharge is what kind consumes when executed alone under Schedule(base) (measured on the real
+// code, sequentially): an execution overlapping a schedule change must consume one of the two
+// reference charges in its entirety.
+func RefCharge(kind string, base uint64) uint64 {
+	r := Exec(NewLiteWith(base), kind)
+	if !r.OK {
+		panic("reference execution of " + kind + " failed: " + r.Err)
+	}
+	return r.Consumed
+}
 
 // ExecResult is what one execution observed.
 type ExecResult struct {
@@ -668,12 +683,33 @@ func ExecTok(l *Lite, kind string, tok string) ExecResult {
 	snd.storage["ELRONDesdtS\x01"] = raw
 	fung, _ := (&esdt.ESDigitalToken{Value: big.NewInt(9)}).Marshal()
 	snd.storage["ELRONDesdtF"] = fung
-	roles, _ := (&esdt.ESDTRoles{Roles: [][]byte{[]byte(vmcommon.ESDTRoleNFTCreate), []byte(vmcommon.ESDTRoleNFTAddURI)}}).Marshal()
+	roles, _ := (&esdt.ESDTRoles{Roles: [][]byte{[]byte(vmcommon.ESDTRoleNFTCreate), []byte(vmcommon.ESDTRoleNFTAddURI), []byte(vmcommon.ESDTRoleNFTUpdateAttributes)}}).Marshal()
 	snd.storage["ELRONDroleesdtS"] = roles
 	snd.storage["ELRONDnonceS"] = []byte{1}
 	snd.storage["k1"] = []byte("vv")
+	roles, _ = (&esdt.ESDTRoles{Roles: [][]byte{[]byte(vmcommon.ESDTRoleLocalMint)}}).Marshal()
+	snd.storage["ELRONDroleesdtF"] = roles
+	local := addr('b', 0)
+	fn := kind
+	if i := strings.Index(kind, "/"); i >= 0 {
+		fn = kind[:i]
+	}
+	ftok := "F"
+	if tok != "S" {
+		ftok = "G" // the fungible counterpart of the foreign token
+	}
 	var args [][]byte
 	switch kind {
+	case "ESDTNFTTransfer/same-shard":
+		args = [][]byte{[]byte(tok), {1}, {1}, local}
+	case "MultiESDTNFTTransfer/same-shard":
+		args = [][]byte{local, {2}, []byte(tok), {1}, {1}, []byte("F"), {0}, {2}}
+	case "ESDTTransfer":
+		args = [][]byte{[]byte(ftok), {2}}
+	case "ESDTLocalMint":
+		args = [][]byte{[]byte(ftok), {2}}
+	case "ESDTNFTUpdateAttributes":
+		args = [][]byte{[]byte(tok), {1}, []byte("new-attributes")}
 	case "ESDTNFTTransfer":
 		args = [][]byte{[]byte(tok), {1}, {1}, dst}
 	case "ESDTNFTCreate":
@@ -685,12 +721,17 @@ func ExecTok(l *Lite, kind string, tok string) ExecResult {
 	case "ESDTNFTAddURI":
 		args = [][]byte{[]byte(tok), {1}, []byte("another-uri")}
 	}
-	f, err := l.Container.Get(kind)
+	f, err := l.Container.Get(fn)
 	if err != nil {
 		return ExecResult{Kind: kind, Err: err.Error()}
 	}
-	in := &vmcommon.ContractCallInput{VMInput: vmcommon.VMInput{CallerAddr: snd.addr, Arguments: args, CallValue: big.NewInt(0), GasProvided: gas}, RecipientAddr: snd.addr, Function: kind}
-	out, err := f.ProcessBuiltinFunction(snd, snd, in)
+	in := &vmcommon.ContractCallInput{VMInput: vmcommon.VMInput{CallerAddr: snd.addr, Arguments: args, CallValue: big.NewInt(0), GasProvided: gas}, RecipientAddr: snd.addr, Function: fn}
+	var hd vmcommon.UserAccountHandler = snd
+	if kind == "ESDTTransfer" {
+		in.RecipientAddr = dst // user transaction to another shard: no destination account here
+		hd = nil
+	}
+	out, err := f.ProcessBuiltinFunction(snd, hd, in)
 	res := ExecResult{Kind: kind}
 	for _, a := range args {
 		res.ArgBytes += uint64(len(a))
